@@ -4,9 +4,16 @@ Runs selftest/seedrun.py on /tmp/seeded_out/<ID>/<variant> and, when the change 
 (applies, baseline test result unchanged, demo passes unchanged / fails changed), stores it as
 /verif/seeded/<ID>-<variant>/ {patch.diff, demo.py, notes.md, meta.json}."""
 import json, os, shutil, subprocess, sys
-pid, var = sys.argv[1], sys.argv[2]
-extra = sys.argv[3:]
-src = "/tmp/seeded_out/%s/%s" % (pid, var)
+args = sys.argv[1:]
+root, label = "/tmp/seeded_out", None
+if "--src" in args:
+    i = args.index("--src"); root = args[i + 1]; del args[i:i + 2]
+if "--as" in args:
+    i = args.index("--as"); label = args[i + 1]; del args[i:i + 2]
+pid, var = args[0], args[1]
+extra = args[2:]
+src = "%s/%s/%s" % (root, pid, var)
+label = label or var
 r = subprocess.run(["/venv/bin/python", "/verif/selftest/seedrun.py", src, pid] + extra, capture_output=True, text=True)
 d = json.loads(r.stdout)
 ok = d.get("applies") and d.get("tests_ok") and d.get("demo_ok")
@@ -14,7 +21,7 @@ print(pid, var, "confirmed" if ok else "NOT CONFIRMED", {k: v["verdict"] for k, 
       "" if ok else json.dumps({k: d.get(k) for k in ("applies", "tests_ok", "tests_passed", "tests_failed", "demo_unchanged_rc", "demo_changed_rc", "apply_error")}))
 if not ok:
     sys.exit(1)
-dst = "/verif/seeded/%s-%s" % (pid, var)
+dst = "/verif/seeded/%s-%s" % (pid, label)
 os.makedirs(dst, exist_ok=True)
 for f in ("patch.diff", "demo.py", "notes.md"):
     if os.path.exists(os.path.join(src, f)):
@@ -22,7 +29,8 @@ for f in ("patch.diff", "demo.py", "notes.md"):
 notes = open(os.path.join(src, "notes.md")).read() if os.path.exists(os.path.join(src, "notes.md")) else ""
 meta = {
     "property": pid,
-    "origin": "written by an independent sub-agent that saw only the property text and its own worktree of the repository",
+    "origin": "written by an independent sub-agent that saw only the property text and its own worktree of the repository"
+              + ("" if root == "/tmp/seeded_out" else " (second round: asked for changes that need something specific to manifest, and told what the first round had produced)"),
     "needs_to_manifest": notes.strip(),
     "confirmed": {
         "patch_applies_to_current_tree": True,
